@@ -681,11 +681,10 @@ def r3_reclaim_at_step_boundary(ctx):
                     ok = True
         ctx.check(ok, R, ppf.key + "|guard", "free.push is unreachable unless refcounts[index] == 0",
                   "a slot can be pushed to the free list while its count is non-zero (premature free)", ppf.loc(bi))
-        freed_guard = False
-        for b2, t2 in ppf.calls_to("Index::index"):
-            cp = flow.canon_op(t2["args"][0])
-            if cp and flow.mentions_field(cp, "executor::Executor", "freed") and ppf.dominates(b2, bi):
-                freed_guard = True
+        # the freed flag is read on every path to the push (path-sensitive: the test may sit behind `&&` in a helper returning bool)
+        freed_reads = [b2 for b2, t2 in ppf.calls_to("Index::index") if flow.canon_op(t2["args"][0]) and
+                       flow.mentions_field(flow.canon_op(t2["args"][0]), "executor::Executor", "freed")]
+        freed_guard = bool(freed_reads) and explore(ppf, [0], avoid=freed_reads, want="target", targets=[bi]) is None
         ctx.check(freed_guard, R, ppf.key + "|freed-guard", "the freed flag is consulted before the slot is freed (no double free)",
                   "freed[index] is no longer consulted before free.push", ppf.loc(bi))
     # free.pop only in allocate_binary_data
@@ -743,22 +742,35 @@ def r5_walkers(ctx):
     extra = [k for k in F.fns if k.endswith("modules::extract_binary_data") or k.endswith("::extract_binary_data")]
     for k in extra:
         walkers.append((k, False))
-    for key, heap_leaf in walkers:
+    for key0, heap_leaf in walkers:
+        key = key0
         fn = F.fn(key)
         ms = [m for m in hir.matches(hir.body_of(fn)) if "value::Value" in (m.get("sty") or "")]
         if not ms:
-            raise CheckError("R-C06-5: no match over Value in %s" % key)
+            # the traversal may live in a shared (new) higher-order helper the walker hands a visitor to: `for_each_heap_slot(value, &mut |i| ..)`
+            for g in F.transparent_callees(key0):
+                if "::{closure" in g:
+                    continue
+                gms = [m for m in hir.matches(hir.body_of(F.fn(g))) if "value::Value" in (m.get("sty") or "")]
+                if gms:
+                    key, fn, ms = g, F.fn(g), gms
+                    break
+        if not ms:
+            raise CheckError("R-C06-5: no match over Value in %s" % key0)
         m = ms[0]
         short = key.split("::")[-1]
+        tcallees = {g for g in F.transparent_callees(key0) if "::{closure" not in g}
         for v in ("Tuple", "Function"):
             arms = hir.arms_for_variant(m, VALUE, v)
-            site = "%s|%s" % (key, v)
+            site = "%s|%s" % (key0, v)
             if not arms or hir.is_catch_all(arms[0][1]["pat"]):
                 ctx.violated(R, site, "%s has no explicit arm for Value::%s: heap references inside %s payloads are skipped" % (short, v, v))
                 continue
             arm = arms[0][1]
             keys = hir.call_keys(arm["body"])
             rec = any(k2 == key or k2.endswith("::" + short) for k2 in keys)
+            # a shared (new, spliced) traversal helper recursing into itself is the walker's recursion
+            rec = rec or any(k2 in tcallees for k2 in keys)
             # recursion may go through a helper applied to the payload (e.g. inject_function_captures for Function)
             helper = any(k2.endswith("inject_function_captures") or k2.endswith("value_to_instructions_from_cache") or k2.endswith("value_to_instructions") for k2 in keys)
             binds = [nm for nm, path in hir.pat_bindings(arm["pat"]) if path and path[-1] == (v, 1)]
@@ -775,36 +787,46 @@ def r5_walkers(ctx):
                 pj = json.dumps(a["pat"])
                 if '"variant": "Heap"' in pj and '"variant": "Binary"' in pj:
                     leaf = True
-            ctx.check(leaf, R, key + "|Binary::Heap", "Binary::Heap(idx) is the leaf case", "%s no longer handles Value::Binary(Binary::Heap(_))" % short)
-    # retain / release are exact mirrors: += 1 vs -= 1 on refcounts[idx]; release queues pending_free at zero
-    rel = F.body(EXEC + "::release")
-    fl = Flow(rel)
-    pf = [bi for bi, t in rel.calls_to("Vec::push") if fl.mentions_field(fl.canon_op(t["args"][0]) or (0, ()), "executor::Executor", "pending_free")]
-    ctx.check(bool(pf), R, rel.key + "|pending_free", "release queues a slot whose count reached zero", "release no longer queues zero-count slots for reclamation")
-    # ... unconditionally: from the `count == 0` outcome every path to the function's exit passes pending_free.push
-    fln = Flow(rel, through_named=True)
-    zero_tests = []
-    for bi, si, s in rel.stmts():
-        if s["k"] == "assign" and s["rv"]["k"] == "bin" and s["rv"]["op"] in ("Eq", "Ne") and (s["rv"]["r"].get("val") == 0 or s["rv"]["l"].get("val") == 0):
-            pl = op_place(s["rv"]["l"]) or op_place(s["rv"]["r"])
-            if pl and any(f == "refcounts" for _o, f in fln.slice_reads(pl["l"], through_calls=("Index::index", "IndexMut::index_mut"))[0]):
-                # the test that follows the decrement (dominated by the saturating_sub call)
-                if any(rel.dominates(b2, bi) for b2, _t in rel.calls_to("saturating_sub")):
-                    zero_tests.append((bi, si, s["rv"]["op"]))
+            ctx.check(leaf, R, key0 + "|Binary::Heap", "Binary::Heap(idx) is the leaf case", "%s no longer handles Value::Binary(Binary::Heap(_))" % short)
+    # retain / release are exact mirrors: += 1 vs -= 1 on refcounts[idx]; release queues pending_free at zero. The counting may sit in release()
+    # itself or in the visitor closure / per-slot helper it hands to a shared traversal: all of these bodies are examined
+    rel0 = F.body(EXEC + "::release")
+    rel_bodies = [F.body(k) for k in F.with_closures(EXEC + "::release")]
+    ret_bodies = [F.body(k) for k in F.with_closures(EXEC + "::retain")]
+    any_pf = False
     ok = False
-    if zero_tests and pf:
-        ok = True
-        for bi, si, op in zero_tests:
-            bad = explore(rel, [bi], avoid=pf, want="return", force={(bi, si): (1 if op == "Eq" else 0)})
-            if bad:
-                ok = False
-    ctx.check(ok, R, rel.key + "|queue-when-zero", "whenever the decrement brings a count to zero the slot is queued (no extra condition)",
-              "a count can reach zero without the slot being queued for reclamation: the slot is never reclaimed (heap grows although nothing is reachable)", rel.loc(0))
-    ret = F.body(EXEC + "::retain")
-    adds = [s for _b, _i, s in ret.stmts() if s["k"] == "assign" and s["rv"]["k"] == "bin" and s["rv"]["op"].startswith("Add") and s["rv"]["r"].get("val") == 1]
-    ctx.check(len(adds) == 1, R, ret.key + "|+1", "retain adds exactly 1 per occurrence", "retain increments changed (%d add sites)" % len(adds))
-    subs = [t for _b, t in rel.calls_to("saturating_sub")] + [s for _b, _i, s in rel.stmts() if s["k"] == "assign" and s["rv"]["k"] == "bin" and s["rv"]["op"].startswith("Sub")]
-    ctx.check(len(subs) == 1, R, rel.key + "|-1", "release subtracts exactly once per occurrence", "release decrements changed (%d sites)" % len(subs))
+    n_tests = 0
+    for rel in rel_bodies:
+        fl = Flow(rel)
+        pf = [bi for bi, t in rel.calls_to("Vec::push") if fl.mentions_field(fl.canon_op(t["args"][0]) or (0, ()), "executor::Executor", "pending_free")]
+        if not pf:
+            continue
+        any_pf = True
+        # ... unconditionally: from the `count == 0` outcome every path to the function's exit passes pending_free.push
+        fln = Flow(rel, through_named=True)
+        zero_tests = []
+        for bi, si, s in rel.stmts():
+            if s["k"] == "assign" and s["rv"]["k"] == "bin" and s["rv"]["op"] in ("Eq", "Ne") and (s["rv"]["r"].get("val") == 0 or s["rv"]["l"].get("val") == 0):
+                pl = op_place(s["rv"]["l"]) or op_place(s["rv"]["r"])
+                if pl and any(f == "refcounts" for _o, f in fln.slice_reads(pl["l"], through_calls=("Index::index", "IndexMut::index_mut"))[0]):
+                    # the test that follows the decrement (dominated by the saturating_sub call)
+                    if any(rel.dominates(b2, bi) for b2, _t in rel.calls_to("saturating_sub")):
+                        zero_tests.append((bi, si, s["rv"]["op"]))
+        if zero_tests:
+            n_tests += len(zero_tests)
+            ok = True
+            for bi, si, op in zero_tests:
+                bad = explore(rel, [bi], avoid=pf, want="return", force={(bi, si): (1 if op == "Eq" else 0)})
+                if bad:
+                    ok = False
+    ctx.check(any_pf, R, rel0.key + "|pending_free", "release queues a slot whose count reached zero", "release no longer queues zero-count slots for reclamation")
+    ctx.check(ok and n_tests > 0, R, rel0.key + "|queue-when-zero", "whenever the decrement brings a count to zero the slot is queued (no extra condition)",
+              "a count can reach zero without the slot being queued for reclamation: the slot is never reclaimed (heap grows although nothing is reachable)", rel0.loc(0))
+    adds = [s for ret in ret_bodies for _b, _i, s in ret.stmts() if s["k"] == "assign" and s["rv"]["k"] == "bin" and s["rv"]["op"].startswith("Add") and s["rv"]["r"].get("val") == 1]
+    ctx.check(len(adds) == 1, R, EXEC + "::retain|+1", "retain adds exactly 1 per occurrence", "retain increments changed (%d add sites)" % len(adds))
+    subs = [t for rel in rel_bodies for _b, t in rel.calls_to("saturating_sub")] + \
+           [s for rel in rel_bodies for _b, _i, s in rel.stmts() if s["k"] == "assign" and s["rv"]["k"] == "bin" and s["rv"]["op"].startswith("Sub")]
+    ctx.check(len(subs) == 1, R, EXEC + "::release|-1", "release subtracts exactly once per occurrence", "release decrements changed (%d sites)" % len(subs))
 
 
 OPTIONAL_FNS = ("Executor::extract_heap_data_many", "Executor::inject_heap_data_many")
@@ -889,6 +911,8 @@ def r6_copy_on_transfer(ctx):
             vsrc = []
             for x in srcs:
                 if x[0] == "call" and ("value::Value" in b.local_ty(x[2]["dest"]["l"])):
+                    if (x[2].get("callee") or "").endswith("FromResidual::from_residual"):
+                        continue      # the error half of a `?` (of an inlined helper): carries no Value
                     vsrc.append((x[2].get("callee") or "").split("::")[-1])
                 elif x[0] == "arg" and "value::Value" in b.local_ty(x[1]):
                     vsrc.append("param:%s" % b.local_name(x[1]))
@@ -914,30 +938,44 @@ def distinct_blobs(ctx, R):
     n = 0
     TCX = ("Iterator::next", "slice::iter", "Deref::deref", "IntoIterator::into_iter", "Iterator::collect", "Iterator::copied", "Iterator::cloned", "Vec::iter",
            "Iterator::enumerate", "HashSet::into_iter", "HashSet::iter", "BTreeSet::into_iter", "BTreeSet::iter", "FromIterator::from_iter", "Iterator::map", "Clone::clone")
-    for key in (EXEC + "::extract_heap_data_many", EXEC + "::extract_heap_data"):
-        if key not in F.fns or not F.fns[key].get("mir"):
+    def set_or_dedup(bd, fl_, fl0_, local):
+        back = fl_.backward({local}, through_calls=TCX)
+        is_set = any(any(x in (bd.local_ty(l) or "") for x in ("HashSet<", "BTreeSet<", "hash::set::", "btree::set::")) for l in back)
+        dedup = any((t2.get("callee") or "").split("::")[-1] in ("dedup", "dedup_by", "dedup_by_key") and t2["args"] and
+                    ((fl0_.canon_op(t2["args"][0]) or fl_.canon_op(t2["args"][0]) or (None,))[0] in back) for _b2, t2 in bd.calls())
+        return is_set or dedup, back
+    for key0 in (EXEC + "::extract_heap_data_many", EXEC + "::extract_heap_data"):
+        if key0 not in F.fns or not F.fns[key0].get("mir"):
             continue
-        b = F.body(key)
-        fl = Flow(b, through_named=True)
-        fl0 = Flow(b)
-        for bi, t in b.calls():
-            c = t.get("callee") or ""
-            if c.split("::")[-1] != "get" or len(t["args"]) < 2:
-                continue
-            rc = fl0.canon_op(t["args"][0]) or fl.canon_op(t["args"][0])
-            if not rc or not fl0.mentions_field(rc, "executor::Executor", "heap"):
-                continue
-            ip = op_place(t["args"][1])
-            if not ip:
-                continue
-            n += 1
-            back = fl.backward({ip["l"]}, through_calls=TCX)
-            is_set = any(any(x in (b.local_ty(l) or "") for x in ("HashSet<", "BTreeSet<", "hash::set::", "btree::set::")) for l in back)
-            dedup = any((t2.get("callee") or "").split("::")[-1] in ("dedup", "dedup_by", "dedup_by_key") and t2["args"] and
-                        ((fl0.canon_op(t2["args"][0]) or fl.canon_op(t2["args"][0]) or (None,))[0] in back) for _b2, t2 in b.calls())
-            ctx.check(is_set or dedup, R, key + "|distinct-blobs", "the indices whose blobs are shipped come from a set (or are de-duplicated)",
-                      "the heap indices whose blobs are copied out are gathered without de-duplication: a value that references one binary twice ships the blob "
-                      "twice, and the receiver's surplus slot (count 0, unreferenced) is never reclaimed", b.loc(bi))
+        for key in F.with_closures(key0):
+            b = F.body(key)
+            fl = Flow(b, through_named=True)
+            fl0 = Flow(b)
+            for bi, t in b.calls():
+                c = t.get("callee") or ""
+                if c.split("::")[-1] != "get" or len(t["args"]) < 2:
+                    continue
+                rc = fl0.canon_op(t["args"][0]) or fl.canon_op(t["args"][0])
+                heap_recv = bool(rc) and fl0.mentions_field(rc, "executor::Executor", "heap")
+                if not heap_recv and "::{closure" in key and rc:
+                    # `self.heap` reached through the captured `&self`
+                    heap_recv = any(e[0] == "f" and e[1] == "heap" for e in rc[1])
+                if not heap_recv:
+                    continue
+                ip = op_place(t["args"][1])
+                if not ip:
+                    continue
+                n += 1
+                ok, back = set_or_dedup(b, fl, fl0, ip["l"])
+                if not ok and "::{closure" in key and any(2 <= x <= b.mir["argc"] for x in back):
+                    # the index is the closure's parameter: an element of the iterator the closure is mapped over
+                    use = F.closure_use(key)
+                    if use and use[3] > 0 and op_place(use[2]["args"][0]):
+                        pb = use[0]
+                        ok, _ = set_or_dedup(pb, Flow(pb, through_named=True), Flow(pb), op_place(use[2]["args"][0])["l"])
+                ctx.check(ok, R, key0 + "|distinct-blobs", "the indices whose blobs are shipped come from a set (or are de-duplicated)",
+                          "the heap indices whose blobs are copied out are gathered without de-duplication: a value that references one binary twice ships the blob "
+                          "twice, and the receiver's surplus slot (count 0, unreferenced) is never reclaimed", b.loc(bi))
     ctx.floor(R, "heap lookups in the extraction functions", n, 1)
 
 
